@@ -36,6 +36,8 @@ def jobs(tier):
         out.append(("hashers.P%d" % P, "job_hashers", dict(P=P, K=(5 if q else 9) if P < 131072 else 4)))
     for pair in (("2a", "2c"), ("3a", "3c")):
         tag = "v2" if pair[0] == "2a" else "hybrid"
+        out.append(("%s.seq.P16384-then-P32768" % tag, "job_pair_seq", dict(pair=pair, P1=16384, P2=32768)))
+        out.append(("%s.seq.P65536-then-P16384" % tag, "job_pair_seq", dict(pair=pair, P1=65536, P2=16384)))
         out.append(("%s.single.P32768" % tag, "job_pair", dict(pair=pair, shape="single", P=32768, K=4, order="reversed")))
         out.append(("%s.flat2.P16384" % tag, "job_pair", dict(pair=pair, shape="flat2", P=16384, K=3, order="symbolic")))
         out.append(("%s.nested3.P16384" % tag, "job_pair", dict(pair=pair, shape="nested3", P=16384, K=2, order="reversed")))
@@ -96,6 +98,29 @@ def job_pair(E, pair, shape, P, K, order, _mutants=None):
     E.check(ben_equal(a, b, ordered=False), "C10.creators.meta")
 
 
+def job_pair_seq(E, pair, P1, P2, _mutants=None):
+    """One process creates with piece length P1 (both creators), then with P2: the
+    second pair must still agree (no state may leak between runs)."""
+    fs = AFS(order="reversed")
+    s0 = E.int("s0", 2 * P1 + 1, 3 * P1)
+    s1 = E.int("s1", 2 * P2 + 1, 3 * P2)
+    fs.add("/data/one", ("f", 0), s0)
+    fs.add("/data/name", ("f", 1), s1)
+    E.note("shape", "single")
+    w = World(fs, mutants=_mutants)
+    metas = []
+    try:
+        for which in pair:
+            cr.create(w, which, path="/data/one", piece_length=P1, progress=0)
+        for which in pair:
+            metas.append(strip(cr.create(w, which, path="/data/name", piece_length=P2, progress=0).meta))
+    except Exception as ex:  # noqa: BLE001
+        E.fail("C10.no-exception", "%s: %s" % (type(ex).__name__, ex))
+        return
+    a, b = metas
+    E.check(ben_equal(a, b, ordered=False), "C10.creators.seq.meta", "after an earlier run with piece length %d the creators %s disagree" % (P1, pair))
+
+
 def _real_hasher(H, np, h, p, P):
     if h == "HasherV2":
         x = H.HasherV2(p, P, progress=0, progress_bar=np)
@@ -116,7 +141,7 @@ def _real_hasher(H, np, h, p, P):
 
 
 def replay(params, model, notes, workdir, seed):
-    P = params["P"]
+    P = params.get("P")
     mods = cr.real_torrentfile()
     if "pair" not in params:
         s = int(model["s0"])
@@ -136,6 +161,30 @@ def replay(params, model, notes, workdir, seed):
         if res["HasherHybrid"][3] != res["FileHasher.hybrid"][3]:
             bad.append("C10.hashers.padding")
         return bad
+    if "P1" in params:
+        import io
+        import contextlib
+        one, name = os.path.join(workdir, "data", "one"), os.path.join(workdir, "data", "name")
+        refconc.write_file(one, refconc.content(("f", 0), int(model["s0"]), seed))
+        refconc.write_file(name, refconc.content(("f", 1), int(model["s1"]), seed))
+        T = mods["torrentfile.torrent"]
+        ms = []
+        with contextlib.redirect_stdout(io.StringIO()):
+            for which in params["pair"]:
+                cls, mv = cr.CLS[which]
+                kw = dict(path=one, piece_length=params["P1"], progress=0)
+                if mv:
+                    kw["meta_version"] = mv
+                getattr(T, cls)(**kw)
+            for which in params["pair"]:
+                cls, mv = cr.CLS[which]
+                kw = dict(path=name, piece_length=params["P2"], progress=0)
+                if mv:
+                    kw["meta_version"] = mv
+                m = dict(getattr(T, cls)(**kw).meta)
+                m.pop("creation date", None)
+                ms.append(cr.norm_real(m))
+        return [] if ms[0] == ms[1] else ["C10.creators.seq.meta"]
     shape = params["shape"]
     sizes = cr.concrete_sizes(shape, model)
     root, data = cr.materialize(workdir, shape, sizes, seed)
